@@ -8,8 +8,25 @@ static void d_mz(void *p, size_t n) { volatile uint8_t *q = p; for (size_t i = 0
 static size_t d_nfc(const char *s, polyseed_str o) { if (s >= o && s < o + PSTR) { o[0] = 0; return 0; } memset(o, 0xEE, PSTR); return u_nfc(s, o, CAP); }
 static size_t d_nfkd(const char *s, polyseed_str o) { if (s >= o && s < o + PSTR) { o[0] = 0; return 0; } memset(o, 0xEE, PSTR); return u_nfkd(s, o, CAP); }
 static uint64_t d_time(void) { return R_EPOCH + (uint64_t)(5 + CUR * 300) * R_STEP + 9; }
-static void *d_alloc(size_t n) { void *p = arena[CUR] + apos[CUR]; apos[CUR] += (n + 63) & ~(size_t)63; if (apos[CUR] > ARENA) abort(); memset(p, 0xDD, n); return p; }
-static void d_free(void *p) { (void)p; }
+/* H8: one pool shared by all threads that hands the most recently released block to the next request, whoever asks (what a
+ * real allocator's free list does); harness state, serialised by the scheduler, part of the state key */
+#define POOL_N 12
+#define POOL_B 128
+static int POOLED; static char pool_mem[POOL_N][POOL_B] __attribute__((aligned(64))); static int pool_free[POOL_N], pool_nfree, pool_fresh;
+static int free_calls[MAXT], free_unwiped[MAXT], pool_bad;
+static void *pool_alloc(size_t n) { if (n > POOL_B) abort(); int b; if (pool_nfree) b = pool_free[--pool_nfree]; else { if (pool_fresh >= POOL_N) abort(); b = pool_fresh++; } memset(pool_mem[b], 0xDD, POOL_B); return pool_mem[b]; }
+static void pool_release(void *p) {
+    long b = ((char *)p - pool_mem[0]) / POOL_B;
+    if ((char *)p < pool_mem[0] || b >= POOL_N || (char *)p != pool_mem[b]) { pool_bad++; return; }
+    for (int i = 0; i < pool_nfree; i++) if (pool_free[i] == (int)b) { pool_bad++; return; }      /* double free */
+    free_calls[CUR]++; for (int i = 0; i < 24; i++) if (pool_mem[b][i]) { free_unwiped[CUR]++; break; }
+    pool_free[pool_nfree++] = (int)b;
+}
+static uint64_t harness_key(void) { if (!POOLED) return 0; uint64_t h = (uint64_t)pool_fresh; for (int i = 0; i < pool_nfree; i++) h = mix64(h, (uint64_t)pool_free[i]); for (int t = 0; t < MAXT; t++) h = mix64(h, (uint64_t)(free_calls[t] * 16 + free_unwiped[t])); return mix64(h, (uint64_t)pool_bad); }
+static void harness_reset(void) { pool_nfree = pool_fresh = pool_bad = 0; for (int t = 0; t < MAXT; t++) free_calls[t] = free_unwiped[t] = 0; }
+static const char *harness_note(void) { static char b[160]; b[0] = 0; if (POOLED) snprintf(b, sizeof b, " (shared pool allocator: release callback invoked %d+%d times, %d unwiped, %d blocks still out, %d bad releases)", free_calls[0], free_calls[1], free_unwiped[0] + free_unwiped[1], pool_fresh - pool_nfree, pool_bad); return b; }
+static void *d_alloc(size_t n) { if (POOLED) return pool_alloc(n); void *p = arena[CUR] + apos[CUR]; apos[CUR] += (n + 63) & ~(size_t)63; if (apos[CUR] > ARENA) abort(); memset(p, 0xDD, n); return p; }
+static void d_free(void *p) { if (POOLED) pool_release(p); }
 
 /* ---- scripts */
 static uint64_t tr[MAXT];
@@ -17,6 +34,16 @@ static int HARNESS = 1;
 static void T(int id, uint64_t v) { tr[id] = mix64(tr[id], v); }
 static void Tbuf(int id, const void *p, size_t n) { const uint8_t *b = p; for (size_t i = 0; i < n; i++) T(id, b[i]); }
 static uint8_t PRE_ST[MAXT][32];       /* serialised seeds prepared before the threads start */
+static int pre_bad;                    /* a harness input did not get the status the harness was built around */
+static char PRE_UNS[2][PSTR];          /* H7: well-formed phrases (English / Spanish as emitted) of a seed whose user feature 4 is not enabled */
+static char PRE_OK[2][PSTR];           /* H7: phrases of ordinary seeds (Spanish as emitted / English) */
+static uint8_t PRE_UNS_ST[32];         /* H7: the serialised form of the same unsupported seed */
+static void prep_inputs(void) {
+    for (int t = 0; t < 3; t++) { rseed s; memset(&s, 0, sizeof s); for (int i = 0; i < 19; i++) s.secret[i] = (uint8_t)(t * 53 + i * 11 + 1); s.secret[18] &= 0x3F; s.birthday = 100 + (unsigned)t; s.features = (unsigned)t & 3; ref_storage(&s, PRE_ST[t]); }
+    char big[2048]; rseed u; memset(&u, 0, sizeof u); for (int i = 0; i < 19; i++) u.secret[i] = (uint8_t)(i * 29 + 5); u.secret[18] &= 0x3F; u.birthday = 77; u.features = 4;
+    ref_phrase(&u, 0, 6, big, 0); snprintf(PRE_UNS[0], PSTR, "%s", big); ref_phrase(&u, 3, 6, big, 0); snprintf(PRE_UNS[1], PSTR, "%s", big); ref_storage(&u, PRE_UNS_ST);
+    u.features = 1; u.secret[0] ^= 0x55; ref_phrase(&u, 3, 6, big, 0); snprintf(PRE_OK[0], PSTR, "%s", big); u.secret[1] ^= 0x33; ref_phrase(&u, 0, 6, big, 0); snprintf(PRE_OK[1], PSTR, "%s", big);
+}
 static void script_h(int HARNESS_, int id, int slot) {
     polyseed_data *s = NULL, *s2 = NULL; const polyseed_lang *l = NULL; polyseed_str ph; polyseed_storage st; int r;
     if (HARNESS_ == 1) {                 /* create, encode (Spanish, composing), decode (auto), free */
@@ -36,6 +63,20 @@ static void script_h(int HARNESS_, int id, int slot) {
         r = polyseed_decode_explicit(ph, 5, polyseed_get_lang(1), &s2); T(slot, (uint64_t)r);
         if (r == 0) { T(slot, polyseed_get_birthday(s2)); T(slot, polyseed_get_feature(s2, 7)); T(slot, (uint64_t)polyseed_is_encrypted(s2)); polyseed_free(s2); }
         polyseed_free(s);
+    } else if (HARNESS_ == 7) {         /* refused seeds next to accepted ones: a well-formed phrase / image whose user feature is not enabled (status 4), and valid phrases, both decoders */
+        if (id == 0) {
+            r = polyseed_decode(PRE_UNS[0], 6, &l, &s); T(slot, (uint64_t)r); if (r == 0) polyseed_free(s); if (r != ST_UNSUPPORTED && !CONCURRENT) pre_bad = 1;
+            s = NULL; r = polyseed_decode_explicit(PRE_OK[1], 6, polyseed_get_lang(0), &s); T(slot, (uint64_t)r); if (r == 0) { polyseed_store(s, st); Tbuf(slot, st, 32); polyseed_free(s); }
+            s = NULL; r = polyseed_load(PRE_UNS_ST, &s); T(slot, (uint64_t)r); if (r == 0) polyseed_free(s); if (r != ST_UNSUPPORTED && !CONCURRENT) pre_bad = 1;
+        } else {
+            r = polyseed_decode(PRE_OK[0], 6, &l, &s); T(slot, (uint64_t)r); if (r == 0) { polyseed_store(s, st); Tbuf(slot, st, 32); T(slot, (uint64_t)lang_index(l)); polyseed_free(s); }
+            s = NULL; r = polyseed_decode_explicit(PRE_UNS[1], 6, polyseed_get_lang(3), &s); T(slot, (uint64_t)r); if (r == 0) polyseed_free(s); if (r != ST_UNSUPPORTED && !CONCURRENT) pre_bad = 1;
+            s = NULL; r = polyseed_decode(PRE_OK[1], 6, NULL, &s); T(slot, (uint64_t)r); if (r == 0) { T(slot, polyseed_get_feature(s, 7)); polyseed_free(s); }
+        }
+    } else if (HARNESS_ == 8) {         /* shared recycling allocator: blocks released by one thread are handed to the other */
+        if (id == 0) { r = polyseed_load(PRE_ST[0], &s); T(slot, (uint64_t)r); polyseed_free(s); s = NULL; r = polyseed_create(1, &s); T(slot, (uint64_t)r); polyseed_store(s, st); Tbuf(slot, st, 32); polyseed_free(s); }
+        else { r = polyseed_create(0, &s); T(slot, (uint64_t)r); polyseed_store(s, st); Tbuf(slot, st, 32); polyseed_free(s); s = NULL; r = polyseed_load(PRE_ST[1], &s); T(slot, (uint64_t)r); if (r == 0) { T(slot, polyseed_get_birthday(s)); polyseed_free(s); } }
+        T(slot, (uint64_t)free_calls[id]); T(slot, (uint64_t)free_unwiped[id]);
     } else if (HARNESS_ == 6) {         /* optional allocator entries left NULL (libc malloc/free): create, free, create again, store, free */
         r = polyseed_create(0, &s); T(slot, (uint64_t)r); polyseed_store(s, st); Tbuf(slot, st, 32); polyseed_free(s);
         r = polyseed_create(1, &s); T(slot, (uint64_t)r); polyseed_store(s, st); Tbuf(slot, st, 32);
